@@ -414,7 +414,7 @@ type workerProc struct {
 
 func startWorker() (*workerProc, error) {
 	cmd := exec.Command(os.Args[0], "worker")
-	cmd.Env = append(os.Environ(), "GOMAXPROCS=1", "GOGC=200")
+	cmd.Env = append(os.Environ(), "GOMAXPROCS=1", "GOGC=800")
 	cmd.Stderr = os.Stderr
 	in, err := cmd.StdinPipe()
 	if err != nil {
